@@ -651,7 +651,7 @@ def _ecdsa_pool(r, f, focus, max_diff=256):
   for _ in range(r.randint(1, 2)):
     iss = A.Issuer(r, r.choice(curves), "I%d" % label)
     add_group(iss.healthy(r, max(1, nh)), None)
-  fams = ["msb", "prefix", "postfix", "u2f", "weak_key", "invalid_key",
+  fams = ["msb", "prefix", "postfix", "u2f", "u2f", "weak_key", "invalid_key",
           "unknown_curve", "dup_sig", "hash_lens", "relabelled_key",
           "close_keys", "close_keys", "multi_fail", "lcg_java", "lcg_gmp"]
   enabled = set(r.sample(fams, r.randint(0 if focus == "C18" else 1, 4)))
@@ -663,7 +663,7 @@ def _ecdsa_pool(r, f, focus, max_diff=256):
   if "u2f" in enabled:
     c = r.choice(curves)
     if c.bits % 32 != 0 and r.random() < 0.7:
-      c = A.curve_by_name(r.choice(["secp224r1", "secp256r1",
+      c = A.curve_by_name(r.choice(["secp224r1", "secp224r1", "secp256r1",
                                     "brainpoolP256r1"]))
     if c.bits % 32 == 0:
       iss = A.Issuer(r, c, "I%d" % label)
@@ -672,6 +672,7 @@ def _ecdsa_pool(r, f, focus, max_diff=256):
         # a signature on a larger curve: anything sized by 'the largest curve
         # seen so far' must not leak into the smaller one
         big = A.curve_by_name(r.choice(["secp384r1", "brainpoolP384r1",
+                                        "brainpoolP512r1", "brainpoolP512r1",
                                         "brainpoolP512r1", "secp521r1"]))
         if big.bits > c.bits:
           iss = A.Issuer(r, big, "I%d" % label)
@@ -880,7 +881,8 @@ def gen_ecdsa(r, tier, f, focus):
       spec = {"name": "CheckCr50U2f", "how": "registry", "via": "all"}
       ops.append({"op": "check", "check": spec, "batch": list(u2f),
                   "oracle": []})
-      ops.append({"op": "check", "check": spec, "batch": bigger[:1],
+      biggest = max(bigger, key=lambda j: A.curves()[pool[j]["curve"]].bits)
+      ops.append({"op": "check", "check": spec, "batch": [biggest],
                   "oracle": []})
       ops.append({"op": "check", "check": spec, "batch": list(u2f),
                   "oracle": [{"relation": "same", "order": list(u2f)}]
